@@ -1,7 +1,7 @@
 \* C03 conservation, unit footprint sum, halo = zero padding -- quick
 CONSTANTS
   ShiftStyle = "pad" LevelStyle = "match" TruncStyle = "exact" AnalyticStyle = "outer" BCubic = "plus"
-  Sizes = {302, 403}
+  Sizes = {302, 403, 502}
   Cells = {11, 23}
   Halos = {0, 1, 3}
   ModeSet = {202, 402, 1212}
